@@ -37,7 +37,11 @@ func c07Request(L int, rportKind, recvKind int) (text, via0, via1 string) {
 		via0 += ";" + rt.Str("xk", "[a-qs-z]", 1, L) + "=" + rt.Str("xv", clsToken, 1, L)
 	}
 	via1 = "SIP/2.0/UDP 192.0.2.2;branch=z9hG4bKdeep;rport;received=192.0.2.3"
-	text = "INVITE sip:bob@" + wService + " SIP/2.0\r\nVia: " + via0 + "\r\nVia: " + via1 +
+	sep := "\r\nVia: "
+	if rt.Bool("one-via-line") {
+		sep = ","
+	}
+	text = "INVITE sip:bob@" + wService + " SIP/2.0\r\nVia: " + via0 + sep + via1 +
 		"\r\nFrom: <sip:alice@example.com>;tag=a\r\nTo: <sip:bob@" + wService + ">\r\nCall-ID: c1\r\nCSeq: 1 INVITE\r\nContent-Length: 0\r\n\r\n"
 	return
 }
